@@ -136,8 +136,8 @@ func plan(tier string, seed int64) []kit.Batch {
 	per, nconc, nck, nrep := 100000, 10, 40, 5
 	rep := 1
 	if tier == "thorough" {
-		per, nconc, nck, nrep = 4000000, 12, 1500, 40
-		rep = 3
+		per, nconc, nck, nrep = 1500000, 12, 1500, 40
+		rep = 2
 	}
 	for r := 0; r < rep; r++ {
 		for i, mp := range []int{2, 4, 8, 16} {
